@@ -1,7 +1,7 @@
 """C14 - titrate_only restricts titration exactly to the listed residues."""
 import ast
 
-from sa.astutil import (call_name, calls_in, dotted, norm, walk_no_nested, fact_texts,
+from sa.astutil import (facts_at, call_name, calls_in, dotted, norm, walk_no_nested, fact_texts,
                         last_attr, names_in)
 from sa.loader import AnalysisError
 from sa.symexpand import expanded_returns
@@ -88,12 +88,16 @@ def run(ctx):
         for m2, q2, node in sites:
             if q2 != 'ConformationContainer.init_group':
                 continue
-            facts = fact_texts(node, ig)
-            given = any(p and t.replace(' ', '') == 'titrate_onlyisnotNone' for t, p in facts)
+            ican = canon(ig)
+            facts = [(ican.text(e), p) for e, p in facts_at(node, ig)]
+            OPT = '.options.titrate_only'
+            given = any(p and t.endswith(OPT + ' is not None') for t, p in facts) or \
+                any((not p) and t.endswith(OPT + ' is None') for t, p in facts)
+
             def _mem(t):
-                if ' not in ' in t and 'titrate_only' in t.split(' not in ', 1)[1]:
+                if ' not in ' in t and OPT in t.split(' not in ', 1)[1]:
                     return 'notin'
-                if ' in ' in t and 'titrate_only' in t.split(' in ', 1)[1]:
+                if ' in ' in t and OPT in t.split(' in ', 1)[1]:
                     return 'in'
                 return None
             unlisted = any((_mem(t) == 'notin' and p) or (_mem(t) == 'in' and not p)
@@ -118,8 +122,16 @@ def run(ctx):
                                                     'ConformationContainer.init_group')],
            'options.titrate_only is read only by init_group (readers %s)'
            % [m.name + '.' + q for m, q, _n in reads], cc, reads[0][2] if reads else ig)
-    uses = [n for n in walk_no_nested(ig) if isinstance(n, ast.Name) and n.id == 'titrate_only'
+    ican = canon(ig)
+    holders = {st.targets[0].id for st in walk_no_nested(ig) if isinstance(st, ast.Assign)
+               and isinstance(st.targets[0], ast.Name)
+               and ican.text(st.value).endswith('.options.titrate_only')}
+    uses = [n for n in walk_no_nested(ig) if isinstance(n, ast.Name) and n.id in holders
             and isinstance(n.ctx, ast.Load)]
+    uses += [n for n in walk_no_nested(ig) if isinstance(n, ast.Attribute) and n.attr == 'titrate_only'
+             and isinstance(n.ctx, ast.Load) and not (
+                 isinstance(n._parent, ast.Assign) and n._parent.value is n
+                 and isinstance(n._parent.targets[0], ast.Name))]
     def _member_use(u):
         par = u._parent
         if isinstance(par, ast.Call) and call_name(par) in ('set', 'frozenset', 'tuple', 'list'):
